@@ -280,34 +280,31 @@ theorem sstep_reachable {d d' : DState} {st : SStep} {ev : String} (h : Reachabl
             simp [ha] at hs
             obtain ⟨hd, _⟩ := hs; subst hd
             exact advance_reachable (d := { d with s := s1 }) hr1 ha
-  | answer r what =>
+  | streamBegin r =>
     simp only [sstep] at hs
     split at hs
     · split at hs
       · simp at hs
       next q hq =>
         split at hs
-        · split at hs
-          · simp at hs
-          next s1 h1 => exact continueOrRetDyn_reachable (endAttempt_reachable h h1) hs
-        · split at hs
-          · simp at hs
-          next code hcode =>
-            split at hs
-            · simp at hs
-            next s1 h1 =>
-              have hr1 := strikesN_reachable h h1
-              split at hs
-              · split at hs
-                · simp at hs
-                next s2 h2 => exact continueOrRetDyn_reachable (endAttempt_reachable hr1 h2) hs
-              · split at hs
-                · split at hs
-                  · simp at hs
-                  next s2 h2 => exact continueOrRetDyn_reachable (endAttempt_reachable hr1 h2) hs
-                · split at hs
-                  · simp at hs
-                  next s2 h2 => exact continueOrRetDyn_reachable (endAttempt_reachable hr1 h2) hs
+        · simp at hs
+        next s1 h1 => simp at hs; obtain ⟨hd, _⟩ := hs; subst hd; exact strikesN_reachable h h1
+    · simp at hs
+  | streamEnd r =>
+    simp only [sstep] at hs
+    split at hs
+    · split at hs
+      · simp at hs
+      next s1 h1 =>
+        have hr1 := endAttempt_reachable h h1
+        split at hs
+        · exact continueOrRetDyn_reachable (d := { d with streaming := d.streaming.filter (· != r) }) hr1 hs
+        · simp at hs; obtain ⟨hd, _⟩ := hs; subst hd; exact hr1
+    · simp at hs
+  | answer r what =>
+    simp only [sstep] at hs
+    split at hs
+    · simp at hs
     · split at hs
       · split at hs
         · simp at hs
@@ -315,7 +312,7 @@ theorem sstep_reachable {d d' : DState} {st : SStep} {ev : String} (h : Reachabl
           split at hs
           · split at hs
             · simp at hs
-            next s1 h1 => exact continueOrRet_reachable (endAttempt_reachable h h1) hs
+            next s1 h1 => exact continueOrRetDyn_reachable (endAttempt_reachable h h1) hs
           · split at hs
             · simp at hs
             next code hcode =>
@@ -324,28 +321,62 @@ theorem sstep_reachable {d d' : DState} {st : SStep} {ev : String} (h : Reachabl
               next s1 h1 =>
                 have hr1 := strikesN_reachable h h1
                 split at hs
-                · cases he : endAttempt s1 r .panic with
-                  | none => simp [he] at hs
-                  | some s2 => simp [he] at hs; obtain ⟨hd, _⟩ := hs; subst hd; exact endAttempt_reachable hr1 he
                 · split at hs
-                  · cases he : endAttempt s1 r .handlerErr with
+                  · simp at hs
+                  next s2 h2 => exact continueOrRetDyn_reachable (endAttempt_reachable hr1 h2) hs
+                · split at hs
+                  · split at hs
+                    · simp at hs
+                    next s2 h2 => exact continueOrRetDyn_reachable (endAttempt_reachable hr1 h2) hs
+                  · split at hs
+                    · simp at hs
+                    next s2 h2 => exact continueOrRetDyn_reachable (endAttempt_reachable hr1 h2) hs
+      · split at hs
+        · split at hs
+          · simp at hs
+          next q hq =>
+            split at hs
+            · split at hs
+              · simp at hs
+              next s1 h1 => exact continueOrRet_reachable (endAttempt_reachable h h1) hs
+            · split at hs
+              · simp at hs
+              next code hcode =>
+                split at hs
+                · simp at hs
+                next s1 h1 =>
+                  have hr1 := strikesN_reachable h h1
+                  split at hs
+                  · cases he : endAttempt s1 r .panic with
                     | none => simp [he] at hs
                     | some s2 => simp [he] at hs; obtain ⟨hd, _⟩ := hs; subst hd; exact endAttempt_reachable hr1 he
-                  · cases he : endAttempt s1 r .ok with
-                    | none => simp [he] at hs
-                    | some s2 => simp [he] at hs; obtain ⟨hd, _⟩ := hs; subst hd; exact endAttempt_reachable hr1 he
-      · simp at hs
+                  · split at hs
+                    · cases he : endAttempt s1 r .handlerErr with
+                      | none => simp [he] at hs
+                      | some s2 => simp [he] at hs; obtain ⟨hd, _⟩ := hs; subst hd; exact endAttempt_reachable hr1 he
+                    · cases he : endAttempt s1 r .ok with
+                      | none => simp [he] at hs
+                      | some s2 => simp [he] at hs; obtain ⟨hd, _⟩ := hs; subst hd; exact endAttempt_reachable hr1 he
+        · simp at hs
   | abort r =>
     simp only [sstep] at hs
     split at hs
     · split at hs
       · simp at hs
-      next s1 h1 => exact continueOrRetDyn_reachable (endAttempt_reachable h h1) hs
+      next s1 h1 =>
+        have hr1 := endAttempt_reachable h h1
+        split at hs
+        · exact continueOrRetDyn_reachable (d := { d with streaming := d.streaming.filter (· != r) }) hr1 hs
+        · simp at hs; obtain ⟨hd, _⟩ := hs; subst hd; exact hr1
     · split at hs
-      · cases he : endAttempt d.s r .clientAbort with
-        | none => simp [he] at hs
-        | some s1 => simp [he] at hs; obtain ⟨hd, _⟩ := hs; subst hd; exact endAttempt_reachable h he
-      · simp at hs
+      · split at hs
+        · simp at hs
+        next s1 h1 => exact continueOrRetDyn_reachable (endAttempt_reachable h h1) hs
+      · split at hs
+        · cases he : endAttempt d.s r .clientAbort with
+          | none => simp [he] at hs
+          | some s1 => simp [he] at hs; obtain ⟨hd, _⟩ := hs; subst hd; exact endAttempt_reachable h he
+        · simp at hs
   | bdown k =>
     simp only [sstep] at hs
     split at hs
